@@ -100,7 +100,12 @@ struct Stored {
 pub fn run_history(ctx: &Ctx, steps: &[Step], tr_policy: u64, sorenson: bool, rng: &mut Rng, rep: &mut Report, coords: &dyn Fn() -> J) {
     let hist: String = steps.iter().map(|s| s.ch()).collect();
     let flavour = if sorenson { Flavour::Sor(rng.below(2) as u8) } else { Flavour::StdPlus };
-    let (w, h) = (16 * (1 + rng.below(3) as usize) - if sorenson { rng.below(5) as usize } else { 0 }, 16 * (1 + rng.below(2) as usize) - if sorenson { rng.below(5) as usize } else { 0 });
+    let long = steps.len() > 40;
+    let (w, h) = if long {
+        (16, 16)
+    } else {
+        (16 * (1 + rng.below(3) as usize) - if sorenson { rng.below(5) as usize } else { 0 }, 16 * (1 + rng.below(2) as usize) - if sorenson { rng.below(5) as usize } else { 0 })
+    };
     let mut cfg = gen_cfg(rng, flavour, w, h);
     cfg.stuffing_pct = 0;
     cfg.pei = 0;
@@ -208,6 +213,10 @@ pub fn run_history(ctx: &Ctx, steps: &[Step], tr_policy: u64, sorenson: bool, rn
                 // which earlier pictures explain the decoded planes?
                 let mut matches_idx: Vec<usize> = vec![];
                 for (j, s) in stored.iter().enumerate() {
+                    // long histories: only the recent pictures and the reference are candidates (keeps the check linear)
+                    if long && j + 6 < stored.len() && j != r {
+                        continue;
+                    }
                     let rec = match reconstruct(&pic, Some(&s.planes)) {
                         Ok(r) => r,
                         Err(e) => {
@@ -279,7 +288,7 @@ pub fn run_history(ctx: &Ctx, steps: &[Step], tr_policy: u64, sorenson: bool, rn
     for w3 in steps.windows(3) {
         rep.count(&format!("trigram:{}{}{}", w3[0].ch(), w3[1].ch(), w3[2].ch()));
     }
-    rep.count(&format!("len={}", steps.len()));
+    rep.count(&format!("len={}", if steps.len() > 40 { "long".to_string() } else { steps.len().to_string() }));
     rep.count("histories_completed");
     if nontrivial {
         rep.distinct.insert(fp);
@@ -292,7 +301,8 @@ pub fn case(ctx: &Ctx, shard: usize, index: u64, rep: &mut Report) {
     let mut rng = Rng::new(ctx.seed ^ 0xC04, ((shard as u64) << 40) | index);
     let sorenson = rng.chance(4, 5);
     let alpha: &[Step] = if sorenson { &ALPHA } else { &[Step::I, Step::P, Step::F, Step::C] };
-    let n = 2 + rng.below(11) as usize;
+    // a few very long histories (counters that wrap after 256 events, maps that grow, ...)
+    let n = if rng.chance(1, 250) { 260 + rng.below(400) as usize } else { 2 + rng.below(11) as usize };
     let mut steps: Vec<Step> = vec![];
     // most histories start with an I picture so that predictions are possible
     if rng.chance(9, 10) {
